@@ -50,8 +50,9 @@ def run_one(name, checks):
             lines = [l for l in q.stdout.split("\n") if l.startswith(("VIOLATION", "OK "))]
             viol = [l for l in lines if l.startswith("VIOLATION")]
             verdict = "caught" if (q.returncode != 0 and viol) else "missed"
-            kind = "no-failing-input-found" if viol and viol[0].rstrip().endswith("no-failing-input-found") else ("failing input replayed" if viol else "")
-            meta.setdefault("checks", {})[c] = {"verdict": verdict, "how": kind, "first_line": (viol[0] if viol else (lines[-1] if lines else q.stdout[-200:]))[:400],
+            with_input = [l for l in viol if not l.rstrip().endswith("no-failing-input-found")]
+            kind = "failing input replayed" if with_input else ("no-failing-input-found" if viol else "")
+            meta.setdefault("checks", {})[c] = {"verdict": verdict, "how": kind, "first_line": ((with_input or viol)[0] if viol else (lines[-1] if lines else q.stdout[-200:]))[:400],
                                                   "violations": len(viol), "wall_s": round(time.time() - t0, 1), "seed": os.environ.get("VERIF_SEED", "1")}
             print("%s vs %s: %s %s" % (name, c, verdict, kind))
     finally:
